@@ -93,7 +93,7 @@ def make_callbacks(out: Outcome, snapshot=True):
     return (start, start_state, pretask, posttask, finish)
 
 
-def execute(spec, request, sched, opts=None, extra_callbacks=None, get_kwargs=None):
+def execute(spec, request, sched, opts=None, extra_callbacks=None, get_kwargs=None, global_callbacks=False):
     """Run one scheduler call.  Never raises for scheduler failures: they are
     recorded in the Outcome."""
     import dask.local as local
@@ -109,7 +109,8 @@ def execute(spec, request, sched, opts=None, extra_callbacks=None, get_kwargs=No
     keys = b.keys(request)
     cbs = make_callbacks(out)
     kwargs = dict(get_kwargs or {})
-    kwargs["callbacks"] = [cbs] + list(extra_callbacks or [])
+    if not global_callbacks:
+        kwargs["callbacks"] = [cbs] + list(extra_callbacks or [])
     if "rerun" in sched:
         kwargs["rerun_exceptions_locally"] = sched["rerun"]
     RUNTIME.enabled = inproc
